@@ -10,6 +10,7 @@ import SqlLineage.IO.Sql
 import SqlLineage.IO.PathSec
 import SqlLineage.IO.Shape
 import SqlLineage.IO.Export
+import SqlLineage.IO.Rename
 import SqlLineage.IO.Names
 import SqlLineage.IO.Split
 import SqlLineage.IO.Provider
@@ -34,6 +35,9 @@ def handlers : List (String × (Json → Except String Json)) := [
   ("exportsql", SqlLineage.IO.Export.handleExportSql),
   ("exportgraph", SqlLineage.IO.Export.handleExportGraph),
   ("exportfull", SqlLineage.IO.Export.handleExportFull),
+  ("rename", SqlLineage.IO.Rename.handleRename),
+  ("renamenames", SqlLineage.IO.Rename.handleNames),
+  ("renamerender", SqlLineage.IO.Rename.handleRoundTrip),
   ("ident", SqlLineage.IO.Names.handleIdent),
   ("namesBatch", SqlLineage.IO.Names.handleBatch),
   ("namesOf", SqlLineage.IO.Names.handleOf),
